@@ -1,6 +1,6 @@
 """C10 ill-scoped programs are rejected, never compiled to something else."""
 import json, random, re
-import vlib, relgen
+import vlib, relgen, c10grid
 from vlib import vh_batch, drv_batch
 
 MANIFEST = dict(
@@ -12,7 +12,17 @@ MANIFEST = dict(
          "relation_required, accept_iff_wellScoped and scope_break_rejected (a program with an ill-scoped site is not accepted). "
          "Tie: every well-scoped generated program (declared and undeclared tables) and every one-edit ill-scoped variant of it "
          "(dropped column referenced later, bare name of two joined relations, surplus/unknown argument, scalar/relation confusion) "
-         "is compiled by the real compiler and judged by the model: same verdict, same error kind and name, same final frame.",
+         "is compiled by the real compiler and judged by the model: same verdict, same error kind and name, same final frame. "
+         "Two seed-independent grids (tools/c10grid.py) run first: (1) an ill-scoped reference (unknown, dropped, qualified, ambiguous) at "
+         "every syntactic position (tuple items, filter, sort keys, ranges of take / window / in, group keys and group / window / loop "
+         "sub-pipelines, join conditions and inline join / append sides, values of named arguments incl. calls that carry only named "
+         "arguments, bodies and used defaults of user functions, used and UNUSED let pipelines) under every kind of expression context "
+         "(operators, f-/s-string interpolations, statically dead and live case branches with literal / let-constant / folded conditions, "
+         "coalesce and && / || operands next to constants, arguments the callee ignores; nested two deep), each next to its well-scoped "
+         "twin which must compile; (2) malformed calls of std transforms, std scalar / aggregate functions and user functions (with and "
+         "without defaults): surplus positional, unknown named (first / last / next to valid ones / near misses / the name of a "
+         "positional parameter), duplicated named, arguments given to a non-function, in full / piped / partially applied form at every "
+         "host position; bindArgs gives the verdict on the signature, well-formed calls must compile and honour their named arguments.",
     note="the model covers one-level qualifiers and the core transforms; `select !{}`, user-written this./that., module paths and types are "
          "outside. A broken program must end in an error (never SQL, a panic is its own class); the oracle for 'broken' is the "
          "generator's own frame bookkeeping, not the model. The unchanged tree accepts a relation in scalar position "
@@ -21,7 +31,8 @@ MANIFEST = dict(
     technique="Lean 4 proofs over a resolution model + one-edit mutation testing of well-scoped programs through the real compiler", ref="4/C10")
 
 KEYWORDS = {"case", "null", "true", "false", "this", "that", "in", "sum", "count", "min", "max", "count_distinct", "average", "side",
-            "inner", "left", "right", "full", "math", "round", "row_number", "from", "select", "lag", "lead", "rank"}
+            "inner", "left", "right", "full", "math", "round", "row_number", "from", "select", "lag", "lead", "rank",
+            "math.abs", "math.round", "math.pow", "as", "int", "take", "rows"}
 REF = r"[a-z_][a-z0-9_]*(?:\.[a-z_][a-z0-9_]*)?"
 
 
@@ -54,6 +65,7 @@ def split_top(s, sep):
 def refs_of(expr):
     e = re.sub(r"'[^']*'", "''", expr)
     e = re.sub(r'\b[fs]"([^"]*)"', lambda m: "(" + " , ".join(re.findall(r"\{([^}]*)\}", m.group(1))) + ")", e)
+    e = e.replace("..", " .. ")          # a range bound is a reference site
     out = []
     for m in re.finditer(r"(?<![\w.])(" + REF + r")(?![\w]*:)", e):
         r = m.group(1)
@@ -76,6 +88,25 @@ def item_sx(text, sort=False):
     rs = refs_of(expr)
     plain = 1 if re.fullmatch(REF, expr.strip()) and len(rs) == 1 else 0
     return "( " + (alias or "-") + f" {plain} " + " ".join(rs) + " )"
+
+
+def first_arg(rest):
+    """split `rest` after its first argument (balanced brackets, quotes): -> (argument, remainder)"""
+    depth, q = 0, None
+    for i, ch in enumerate(rest):
+        if q:
+            if ch == q:
+                q = None
+            continue
+        if ch in "'\"":
+            q = ch
+        elif ch in "([{":
+            depth += 1
+        elif ch in ")]}":
+            depth -= 1
+        elif ch == " " and depth == 0:
+            return rest[:i], rest[i + 1:].strip()
+    return rest, ""
 
 
 def tuple_items(body):
@@ -123,9 +154,10 @@ class Translator:
         if kw == "take":
             return "( take )"
         if kw == "group":
-            m = re.match(r"^(\{.*?\}|" + REF + r") \((.*)\)$", rest, re.S)
-            keys = tuple_items(m.group(1)) if m.group(1).startswith("{") else [m.group(1)]
-            inner = split_top(m.group(2), " | ")
+            karg, body = first_arg(rest)
+            assert body.startswith("(") and body.endswith(")"), rest
+            keys = tuple_items(karg) if karg.startswith("{") else [karg]
+            inner = split_top(body[1:-1], " | ")
             ks = "( " + " ".join(item_sx(k) for k in keys) + " )"
             if inner[0].startswith("aggregate"):
                 return f"( groupagg {ks} ( " + " ".join(item_sx(i) for i in tuple_items(inner[0][len("aggregate"):])) + " ) )"
@@ -134,10 +166,15 @@ class Translator:
                 if t.startswith("sort"):
                     b = t[4:].strip()
                     srt = tuple_items(b) if b.startswith("{") else [b]
+                elif t.startswith("derive "):       # sites of a windowed derive inside the group (same frame as the sort keys)
+                    srt = srt + tuple_items(t[len("derive"):])
             return f"( groupwin {ks} ( " + " ".join(item_sx(i, sort=True) for i in srt) + " ) )"
         if kw == "join":
-            m = re.match(r"^(?:side:\w+ )?(?:([a-z_][a-z0-9_]*) = )?(\(.*?\)|[^\s(]+) \((.*)\)$", rest, re.S)
-            alias, rname, cond = m.group(1), m.group(2), m.group(3).strip()
+            m = re.match(r"^(?:side:\w+ )?(?:([a-z_][a-z0-9_]*) = )?(.*)$", rest, re.S)
+            alias = m.group(1)
+            rname, cond = first_arg(m.group(2))
+            assert cond.startswith("(") and cond.endswith(")"), rest
+            cond = cond[1:-1].strip()
             src = self.source(rname)
             if cond.startswith("=="):
                 n = cond[2:].strip()
@@ -145,6 +182,9 @@ class Translator:
             return f"( join {src} {alias or '-'} ( " + " ".join(refs_of(cond)) + " ) ( ) ( ) )"
         if kw == "append":
             return f"( append {self.source(rest)} )"
+        if kw == "window":
+            m = re.match(r"^(?:\w+:\S+ )*\((derive \{.*\})\)$", rest, re.S)
+            return self.step(m.group(1))
         raise ValueError("untranslatable step: " + line)
 
     def add_pipeline(self, lines, letname):
@@ -233,6 +273,11 @@ def step_closes(line, closed, letclosed):
     return closed
 
 
+CONTEXT_STEPS = ["derive {zq = §}", "select {zq = §}", "select {§}", "filter ((§) == null)", "sort {§}", "aggregate {zq = count (§)}",
+                 "group {kq = §} (take 1)", "window rows:-1..0 (derive {zq = §})", "derive {zq = zg9 ¤ n:(§)}", "derive {zq = (¤ | zg9 n:(§))}",
+                 "derive {(¤ | zg9 n:(§))}"]
+
+
 def edits(c, rng):
     """one scope-breaking edit per (kind, site): yields dict(kind, lines, lets, prelude, expect)  expect in {'unknown','ambiguous','args','relation', None}"""
     out = []
@@ -274,11 +319,32 @@ def edits(c, rng):
             if "." in col.ref:
                 quals.setdefault(col.name, set()).add(col.ref.split(".")[0])
         amb = [n for n, q in quals.items() if len(q) >= 2 and names.count(n) == len(q)]
-        if amb and c.text[j].startswith("join"):
+        # a relation joined a second time under the same name takes the name over from its first instance (the generator's qualifiers
+        # of the older columns are then not the real ones): no ambiguity edit at such a join
+        mj = re.match(r"^join (?:side:\w+ )?(?:[a-z_][a-z0-9_]*\s*=\s*)?([a-z_][a-z0-9_]*) ", c.text[j])
+        rejoined = bool(mj and re.search(rf"\b{mj.group(1)}\b", " ".join(c.text[:j])))
+        if amb and c.text[j].startswith("join") and not rejoined:
             n = rng.choice(amb)
             new = rng.choice([f"derive {{zq = {n}}}", f"filter ({n} != null)", f"select {{{n}}}", f"sort {{{n}}}"])
             out.append(dict(kind="ambiguous-bare-name", site=j, lines=c.text[:j + 1] + [new] + c.text[j + 1:], expect="ambiguous", name=n))
         seen_names += names
+    # (a') the same two kinds with the reference wrapped in a random expression context at a random position, and random malformed calls
+    cj = [j for j in range(len(c.frames)) if closed[j]]
+    for j in sorted(rng.sample(cj, min(3, len(cj)))):
+        fr = c.frames[j]
+        names = [col.name for col in fr]
+        earlier = [col.name for f2 in c.frames[:j] for col in f2]
+        dropped = [n for n in dict.fromkeys(earlier) if n not in names]
+        ints = [col.ref for col in fr if col.ty == "int" and names.count(col.name) == 1] or ["1"]
+        for kind, n in (("dropped-column-in-context", rng.choice(dropped) if dropped else None), ("unknown-column-in-context", "zz9")):
+            if n is None:
+                continue
+            g = rng.choice(ints)
+            cl, e, _ = c10grid.random_context(rng, n, g)
+            new = rng.choice(CONTEXT_STEPS).replace("¤", g).replace("§", e)
+            hs = c10grid.helpers_for(new)
+            out.append(dict(kind=kind, site=j, lines=c.text[:j + 1] + [new] + c.text[j + 1:], expect="unknown", name=n, context=cl,
+                            prelude="".join(c10grid.HELPERS[h] + "\n" for h in hs), globals=tuple(hs)))
     # (c) arguments
     j = rng.randrange(len(c.frames))
     ints = [col.ref for col in c.frames[j] if col.ty == "int"] or ["1"]
@@ -292,6 +358,24 @@ def edits(c, rng):
                            ("unknown-named-std", f"derive {{zq = math.round 2 {a} digits:3}}", "args"),
                            ("surplus-positional-transform", "take 1 2", "args")]:
         out.append(dict(kind=kind, site=j, lines=c.text[:j + 1] + [new] + c.text[j + 1:], expect=exp, prelude=fn, name=None))
+    uniq = [col.ref for col in c.frames[j] if col.ty == "int" and [x.name for x in c.frames[j]].count(col.name) == 1] or ["1"]
+    for _ in range(3):
+        a1, a2 = rng.choice(uniq), rng.choice(uniq)
+        cal = rng.choice(c10grid.SCALAR_CALLEES)
+        label, kind, p, n, _, _, _ = rng.choice([v for v in c10grid.call_variants(cal) if v[1] != "valid"])
+        p = [a1 if x == "u0" else a2 if x in ("a0", "k") else x for x in p]
+        n = [x.replace(":u0", ":" + a1) for x in n]
+        form = rng.choice(["full"] + (["piped"] if p else []) + (["partial"] if n and p else []))
+        call = c10grid.render_call(cal["fn"], p, n, form)
+        new = rng.choice(["derive {zq = §}", "select {zq = §}", "filter ((§) == null)", "sort {§}", "derive {§}"]).replace("§", call)
+        hs = c10grid.helpers_for(new)
+        out.append(dict(kind="call-" + kind, site=j, lines=c.text[:j + 1] + [new] + c.text[j + 1:], expect="call", name=None,
+                        prelude="".join(c10grid.HELPERS[h] + "\n" for h in hs), globals=tuple(hs)))
+    for new in rng.sample(("ztop9 limit:5", "ztop9 n:2 limit:5", "zkeep9 zq9:1", "take zq9:1 2", "(take zq9:1) 2", f"sort zq9:1 {{{a}}}", "zkeep9 1", "ztop9 1 2",
+                f"zsrt9 zq9:{a}", f"derive {{zq = {a} zq9:1}}", f"filter ({a} zq9:1) == null", f"select {{zq = ({a} | zf9 zq9:1)}}"), 4):
+        hs = c10grid.helpers_for(new)
+        out.append(dict(kind="call-transform:" + new.split()[0], site=j, lines=c.text[:j + 1] + [new] + c.text[j + 1:], expect="call", name=None,
+                        prelude="".join(c10grid.HELPERS[h] + "\n" for h in hs), globals=tuple(hs)))
     # (d) scalar where a relation is required / relation where a scalar is required
     out.append(dict(kind="scalar-as-from", site=0, lines=["from 5"] + c.text[1:], expect="relation", name=None))
     out.append(dict(kind="scalar-as-append", site=j, lines=c.text[:j + 1] + ["append 7"] + c.text[j + 1:], expect="relation", name=None))
@@ -420,7 +504,7 @@ def explore(ctx, label, rng, n, profile, quick):
         for e in es:
             prql = render(c, e["lines"], prelude=e.get("prelude", ""))
             try:
-                mp = model_program(c, e["lines"], extra_globals=("f9", "g9") if e.get("prelude") else ())
+                mp = model_program(c, e["lines"], extra_globals=e.get("globals", ("f9", "g9") if e.get("prelude") else ()))
             except Exception as ex:
                 mp = None
             reqs.append({"op": "compile", "prql": prql, "target": "sql.sqlite"})
@@ -456,9 +540,133 @@ def explore(ctx, label, rng, n, profile, quick):
         elif exp == "relation":
             if mp is not None and mc[0] != "relation":
                 ctx.disagreement("model-rejects-edit", f"{kind}: expected the model to say not-relation, it says {m}", rep)
-        elif exp == "args":
+        elif exp in ("args", "call"):
             if ic[0] not in ("args", "ok", "panic"):
                 ctx.count(f"edit:{kind}:rejected-for-another-reason")
+
+
+
+# ---------------------------------------------------------------------------------------------------
+# systematic grids (tools/c10grid.py): references in every position / context, malformed calls
+# ---------------------------------------------------------------------------------------------------
+
+class GridSchema:
+    tables = [(n, [relgen.Col(c, "int") for c in cols]) for n, cols in c10grid.TABLES.items()]
+
+
+def grid_model(declared, lets, lines, helpers):
+    try:
+        return Translator(GridSchema, declared, tuple(helpers)).program([(n, t, None) for n, t in lets], lines)
+    except Exception:
+        return None
+
+
+def compile_all(texts):
+    uniq = list(dict.fromkeys(texts))
+    return dict(zip(uniq, vh_batch([{"op": "compile", "prql": p, "target": "sql.sqlite"} for p in uniq])))
+
+
+def context_grid(ctx, level):
+    """an ill-scoped reference in every syntactic position under every expression context: must be rejected (oracle); the model
+    says `unknown R` / `ambiguous R` and accepts the well-scoped twin (tie)"""
+    cells = list(c10grid.context_cells(level))
+    ans = compile_all([c["text"] for c in cells] + [c["twin"] for c in cells])
+    mlines, mkey = [], {}
+    for c in cells:
+        if not c["model"]:
+            continue
+        for key, lets, lines in ((c["text"], c["lets"], c["lines"]), (c["twin"], c["tlets"], c["tlines"])):
+            if key not in mkey:
+                mp = grid_model(c["declared"], lets, lines, c["helpers"])
+                mkey[key] = len(mlines)
+                mlines.append("scope\t" + (mp or "( )"))
+    mans = drv_batch(mlines)
+    twins_ok, twins_all = set(), set()
+    for c in cells:
+        a, t = ans[c["text"]], ans[c["twin"]]
+        ic, tc = err_class(a), err_class(t)
+        base, pos, cl, rk = c["id"]
+        ctx.case(("grid", c["text"]), nontrivial=True)
+        ctx.count(f"grid:{pos}:{rk}:" + ic[0])
+        ctx.count("grid-context:" + ("static:" if c["static"] else "plain:") + cl.split("/")[0] + ("/nested" if "/" in cl else ""))
+        if not c["no_twin"]:
+            twins_all.add(c["twin"])
+        if tc[0] == "ok":
+            twins_ok.add(c["twin"])
+        elif not c["no_twin"]:
+            ctx.count(f"grid:twin-rejected:{pos}:{cl}")
+        rep = {"prql": c["text"], "grid": list(c["id"]), "reference": c["name"], "compiler": ic, "twin": c["twin"], "twin_compiler": tc,
+               "sql": (a.get("sql") or "")[:400]}
+        if ic[0] == "ok":
+            ctx.oracle_failure(None, f"reference `{c['name']}` ({rk}) at {pos} under {cl} over {base}: the ill-scoped program compiles to SQL", rep)
+        elif ic[0] == "panic":
+            ctx.oracle_failure(None, f"reference `{c['name']}` ({rk}) at {pos} under {cl} over {base}: the compiler panics: {ic[1]}", rep)
+        elif tc[0] == "ok" and not (ic[0] == c["expect"] and (ic[0] == "ambiguous" or strip_this(ic[1]) == c["name"])):
+            ctx.count(f"grid:{pos}:rejected-for-another-reason")
+        if c["model"]:
+            m, mt = mans[mkey[c["text"]]], mans[mkey[c["twin"]]]
+            mc, mtc = model_class(m), model_class(mt)
+            rep = dict(rep, model=m, twin_model=mt)
+            if mc[0] != c["expect"] or mc[1] != c["name"]:
+                ctx.disagreement("grid-model", f"{c['id']}: expected the model to say {c['expect']} {c['name']}, it says {m}", rep)
+            if tc[0] == "ok" and mtc[0] != "ok":
+                ctx.disagreement("grid-model-twin", f"{c['id']}: the compiler accepts the well-scoped twin, the model says {mt}", rep)
+            if ic[0] in ("unknown", "ambiguous") and (ic[0] != mc[0] or (ic[0] == "unknown" and strip_this(ic[1]) != mc[1])):
+                ctx.disagreement("grid-error-kind", f"{c['id']}: compiler {ic}, model {m}", rep)
+    ctx.obligation("grid: the well-scoped twin of (nearly) every cell compiles, so the rejections are due to the reference",
+                   len(twins_ok) * 100 >= len(twins_all) * 97, f"{len(twins_ok)}/{len(twins_all)} twins compile; {len(cells)} ill-scoped cells")
+
+
+HONOURED = ("zg9", "zh9", "ztop9", "join", "window")     # callees whose named arguments change the SQL (values differ from the defaults)
+
+
+def call_grid(ctx):
+    """malformed calls (surplus positional, unknown / duplicated named, arguments to a non-function) in full / piped / partial form
+    at every host position: must be rejected (oracle); Model.Fn.bindArgs gives the same verdict on the signature (tie)"""
+    cells = list(c10grid.call_cells())
+    ans = compile_all([c["text"] for c in cells] + [c["twin"] for c in cells])
+    sigs = list(dict.fromkeys((c["sig"][0], tuple(c["sig"][1]), c["sig"][2], tuple(c["sig"][3])) for c in cells if c["sig"]))
+    bind = dict(zip(sigs, drv_batch([f"bindargs\t{p}\t{' '.join(nm)}\t{gp}\t{' '.join(gn)}" for p, nm, gp, gn in sigs])))
+    plain_sql = {}
+    for c in cells:
+        if c["kind"] == "valid" and c["id"][1] == "valid":
+            plain_sql[(c["id"][0],) + tuple(c["id"][2:])] = ans[c["text"]].get("sql")
+    nvalid = nok = 0
+    for c in cells:
+        a, t = ans[c["text"]], ans[c["twin"]]
+        ic, tc = err_class(a), err_class(t)
+        kind = c["kind"]
+        ctx.case(("callgrid", c["text"]), nontrivial=True)
+        ctx.count(f"callgrid:{kind}:{c['id'][0]}:" + ic[0])
+        rep = {"prql": c["text"], "grid": list(c["id"]), "kind": kind, "compiler": ic, "twin": c["twin"], "twin_compiler": tc,
+               "sql": (a.get("sql") or "")[:400]}
+        mv = None
+        if c["sig"] and kind != "duplicate-named":
+            mv = bind[(c["sig"][0], tuple(c["sig"][1]), c["sig"][2], tuple(c["sig"][3]))]
+            want = {"valid": "ok", "surplus": "too-many", "unknown-named": "unknown-named " + str(c["bad"])}[kind]
+            # fewer positional arguments than parameters: bindArgs reports the missing one first (the compiler curries and reports the name)
+            if mv != want and not (kind == "unknown-named" and c["sig"][2] < c["sig"][0] and mv == "missing"):
+                ctx.disagreement("bindArgs", f"{c['id']}: bindArgs on {c['sig']} = {mv}, expected {want}", rep)
+        if kind == "valid":
+            nvalid += 1
+            if ic[0] == "ok":
+                nok += 1
+                base = plain_sql.get((c["id"][0],) + tuple(c["id"][2:]))
+                if (c["id"][1].startswith("valid-named") and c["id"][0] in HONOURED and c["id"][3] not in ("case-dead", "unused-let-body")
+                        and base is not None and base == a.get("sql")):
+                    ctx.disagreement("named-argument-ignored", f"{c['id']}: the call with the named arguments compiles to the SQL of the call without them", rep)
+            else:
+                ctx.disagreement("bindArgs-vs-compiler", f"{c['id']}: a well-formed call is rejected: {ic}", rep)
+            continue
+        if tc[0] != "ok":
+            ctx.count(f"callgrid:twin-rejected:{kind}")
+        if ic[0] == "ok":
+            ctx.oracle_failure(None, f"{kind} at {c['id']}: the malformed call compiles to SQL", rep)
+        elif ic[0] == "panic":
+            ctx.oracle_failure(None, f"{kind} at {c['id']}: the compiler panics: {ic[1]}", rep)
+        elif tc[0] == "ok" and ic[0] != "args":
+            ctx.count(f"callgrid:{kind}:rejected-for-another-reason")
+    ctx.obligation("call grid: every well-formed call of the grid compiles (the signature table is the real one)", nok == nvalid, f"{nok}/{nvalid}")
 
 
 def classify_accept(kind, e, a):
@@ -601,10 +809,13 @@ def run(ctx):
         required_theorems=["resolve_unique", "resolve_two_candidates", "closed_frame_rejects", "args_checked_surplus", "args_checked_named",
                            "relation_required", "accept_iff_wellScoped", "scope_break_rejected", "resolve_ok_iff_denotes",
                            "inferred_only_if_open", "unknown_reference_rejected", "ambiguous_reference_rejected", "call_rejects"])
-    ctx.rule = ("well-scoped programs of the relational generator (declared schemas with and without a shared column name; undeclared tables) "
+    ctx.rule = ("two systematic grids (every syntactic position x every expression context x fully known base frames x kinds of ill-scoped "
+                "reference, each cell with its well-scoped twin; malformed calls x callee x call form x host position), then "
+                "well-scoped programs of the relational generator (declared schemas with and without a shared column name; undeclared tables) "
                 "and, for each, one scope-breaking edit at every site: a column dropped by an earlier select/aggregate/group referenced later, a "
                 "name that never existed (bare and qualified) in a fully known frame, a bare name two joined relations provide, a surplus "
-                "positional / unknown named argument to a std, aggregate, user function or transform, a scalar as from/join/append argument, a "
+                "positional / unknown named argument to a std, aggregate, user function or transform, the dropped / unknown name wrapped in a random "
+                "expression context at a random position, random malformed calls of the call grid, a scalar as from/join/append argument, a "
                 "relation as a scalar; each variant is compiled by the real compiler (must end in an error) and judged by the Lean model "
                 "(same verdict, error kind and name; same final frame on the unbroken program); a case is one program; non-trivial = an accepted "
                 "program of >= 3 transforms, or an edited program")
@@ -616,6 +827,8 @@ def run(ctx):
     fixed = random.Random(101010)
     arg_cases(ctx)
     corpus_cases(ctx)
+    call_grid(ctx)
+    context_grid(ctx, "quick" if quick else "thorough")
     explore(ctx, "declared-shared-k", fixed, 500 if quick else 4000, DECL_P, quick)
     explore(ctx, "declared", fixed, 300 if quick else 2500, DECL_K, quick)
     explore(ctx, "declared-dup-names", fixed, 300 if quick else 2500, DUP_P, quick)
